@@ -1255,3 +1255,71 @@ def snap_lines(h):
                 continue
             out.append("snapj %s/%d.%s.%s %d %s %s" % (h.id, j, u[:8], ty, k["p0"], "-" if k["v0"] is None else str(k["v0"]), ";".join(k["script"])))
     return out
+
+
+def oracle_promo(h):
+    """C07 at every quiescent drain after a hand-over: exactly one peer hosts, everybody else is connected to it as a
+    client (the former host included, with its server gone), all peers hold the same synchronized entities (none
+    twice), registered component values and parent links"""
+    fails = []
+    cfg = peer_cfgs(h)
+    npeers_all = 1 + max([0] + [p for p in cfg])
+    handed = None
+    for i, e in enumerate(h.events):
+        if e["ev"] == "promotion" and not e["sent"]:
+            fails.append(("C07", "the promotion could not even be requested (no connected client)", {}))
+        if e["ev"] == "handover":
+            handed = e
+            if e["new"] == e["old"]:
+                fails.append(("C07", "after the promotion no other peer is hosting", {"old": e["old"]}))
+        if e["ev"] == "late_join" and not e["ok"]:
+            fails.append(("C07", "peer %d never completes its join with the new host" % e["peer"], {}))
+        if e["ev"] == "promotion":
+            handed = None        # a new hand-over is under way: judged from its own `handover` event on
+        if e["ev"] == "drain" and handed is not None and handed["new"] != handed["old"]:
+            if not e["quiescent"]:
+                fails.append(("C07", "the session does not drain after the hand-over", {}))
+                continue
+            host = handed["new"]
+            states = {p: last_state(h, i, p) for p in range(npeers_all)}
+            states = {p: s for p, s in states.items() if s is not None}
+            hosts = [p for p, s in states.items() if s["server_transport"] or s["server_state"] == "Connected"]
+            if hosts != [host]:
+                fails.append(("C07", "not exactly one peer is host after the hand-over", {"hosting": hosts, "promoted": host}))
+            for p, s in states.items():
+                if p == host:
+                    if s["client_transport"]:
+                        fails.append(("C07", "the new host still holds its client transport", {"peer": p}))
+                    continue
+                if not (s["client_state"] == "Connected" and s["client_connected"] and s["client_transport"]):
+                    who = "the former host" if p == handed["old"] else "client"
+                    fails.append(("C07", "%s %d is not connected to the new host as a client" % (who, p),
+                                  {"client_state": s["client_state"], "renet_connected": s["client_connected"], "transport": s["client_transport"]}))
+            if states[host]["server_clients"] != len(states) - 1:
+                fails.append(("C07", "the new host serves %d clients, the session has %d other peers" % (states[host]["server_clients"], len(states) - 1), {}))
+            ref = states.get(host)
+            for p, s in states.items():
+                uu = [x["uuid"] for x in s["ents"]]
+                if len(uu) != len(set(uu)):
+                    fails.append(("C07", "peer %d holds two live entities with the same uuid" % p, {}))
+                if p == host or ref is None:
+                    continue
+                if not (s["client_state"] == "Connected" and s["client_connected"]):
+                    continue
+                a, b = {x["uuid"]: x for x in ref["ents"]}, {x["uuid"]: x for x in s["ents"]}
+                if set(a) != set(b):
+                    fails.append(("C07", "peer %d and the new host hold different sets of synchronized entities" % p,
+                                  {"only_host": [u[:8] for u in a if u not in b][:5], "only_peer": [u[:8] for u in b if u not in a][:5]}))
+                    continue
+                regs = set(cfg.get(host, {}).get("registered", [])) & set(cfg.get(p, {}).get("registered", []))
+                for u in a:
+                    bad = [ty for ty in regs if a[u]["comps"].get(ty) != b[u]["comps"].get(ty)]
+                    if bad:
+                        fails.append(("C07", "peer %d holds a different component value than the new host" % p, {"uuid": u[:8], "ty": bad[0]}))
+                        break
+                    pa = None if a[u]["parent"] == "unsynced" else a[u]["parent"]
+                    pb = None if b[u]["parent"] == "unsynced" else b[u]["parent"]
+                    if pa != pb:
+                        fails.append(("C07", "peer %d has a different parent link than the new host" % p, {"uuid": u[:8]}))
+                        break
+    return fails
